@@ -21,7 +21,7 @@ var vpRouteSets = map[string][]vpUpstreamCfg{
 	"static":  {{ID: "S", Kind: "static", Path: "/", Code: 202}, {ID: "A", Kind: "http", Path: "/a/"}},
 }
 
-var vpRouteQueries = map[string]string{"none": "", "simple": "?k=v", "canon2": "?a=1&b=2", "unsorted": "?b=2&a=1&b=0", "encoded": "?q=%2Fx%20y+z&e=%C3%A9"}
+var vpRouteQueries = map[string]string{"none": "", "simple": "?k=v", "canon2": "?a=1&b=2", "unsorted": "?b=2&a=1&b=0", "encoded": "?q=%2Fx%20y+z&e=%C3%A9", "semi": "?cmd=list;sort=up&f=a;b;c"}
 
 // what every recording upstream answers with: repeated lines, values containing commas, upstream cookies
 func vpUpRespHeader() http.Header {
